@@ -113,9 +113,10 @@ Proof. exact all_free_when_no_holder. Qed.
 Print Assumptions c02_no_leak_partial.
 
 Example c02_no_leak_partial_nonvacuous :
-  match run (world_new cfg_sat) [OPubCreate 2 false HNone; OSubCreate None None; OSendCopy 0; ORecv 0; OSampleDrop 0; OPubUpdate 0; OLoan 0; OLoanDrop 1] with
-  | Val (w, _) => pub_inv_b w 0 = true /\ forallb (fun o => Nat.eqb (holders w 0 o) 0) (seq 0 (p_n (getp w 0))) = false
+  match run (world_new cfg11) [OPubCreate 2 false HNone; OSubCreate None None; OSendCopy 0; ORecv 0; OSampleDrop 0; OPubUpdate 0; OLoan 0; OLoanDrop 1] with
+  | Val (w, _) => pub_inv_b w 0 = true /\ forallb (fun o => Nat.eqb (holders w 0 o) 0) (seq 0 (p_n (getp w 0))) = true
+                  /\ length (p_sent (getp w 0)) = 1
   | Panic => False
   end.
-Proof. vm_compute. split; reflexivity. Qed.
+Proof. vm_compute. repeat split. Qed.
 Print Assumptions c02_no_leak_partial_nonvacuous.
